@@ -37,7 +37,9 @@ Shapes == {"nest-bind",        \* {{{...}}} bind          nesting = size
            "cvx-nest-bind",    \* {} size { [ exch ] cvx } repeat bind   (nesting built at run time)
            "bind-shared",      \* {} size { [ exch dup ] cvx } repeat bind  (each level holds the previous one twice)
            "bind-self-multi",  \* a procedure stored in min(size, 24) of its own slots, then bound
-           "default-handler"}  \* errordict /typecheck get exec   (default handler without a pending error)
+           "default-handler",  \* errordict /typecheck get exec   (default handler without a pending error)
+           "t1-seac-chain",    \* Type 1 font: size glyphs, each the seac composite of its predecessor with itself
+           "t1-seac-self"}     \* Type 1 font: a composite of itself, two composites of each other
 
 VARIABLE pick
 Init == pick = <<>>
